@@ -189,6 +189,10 @@ func (r *recorder) WriteString(s string) (n int, err error) {
 // ReadFrom reads data from src until EOF or error. The return value n is the number of bytes read.
 // Any error except EOF encountered during the read is also returned.
 func (r *recorder) ReadFrom(src io.Reader) (n int64, err error) {
+	if r.hijacked {
+		return 0, http.ErrHijacked
+	}
+
 	if rf, ok := r.ResponseWriter.(io.ReaderFrom); ok {
 		n, err = rf.ReadFrom(src)
 		if n > 0 {
